@@ -28,6 +28,9 @@ type Profile struct {
 	AnnotateAll   bool // every top-level parameter annotated
 	SharedFields  bool // some records share their field-name set (ambiguous unqualified literals)
 	ManyDecls     bool // at least 3 records and 2 unions
+	Tinyfo        bool // the early-Folang subset: typed probes, no empty slices, no %v of unions, parenthesised slice-literal arguments
+	NoInlineIf    bool // no one-line if as a value
+	NoFieldFn     bool // no _.Field shorthand
 	InlineRhsOnly bool // tinyfo: a let's right-hand side must start on the let line
 	NoElif        bool
 }
@@ -312,6 +315,9 @@ func (g *Gen) literal(sc *scope, t *Type, depth int) *Expr {
 		if depth <= 0 && n > 2 {
 			n = 2
 		}
+		if n == 0 && g.P.Tinyfo {
+			n = 1
+		}
 		if n == 0 {
 			g.label("empty slice via slice.New")
 			return &Expr{K: "call", Name: "slice.New", TArgs: []*Type{t.Elem()}, Args: []*Expr{Unit()}, T: t}
@@ -409,10 +415,23 @@ func (g *Gen) probe(e *Expr) *Expr {
 	if !g.P.Probes || g.pure > 0 || !e.T.FirstOrder() || e.T.K == "unit" {
 		return e
 	}
+	name := "trace"
+	if g.P.Tinyfo {
+		switch e.T.K {
+		case "int":
+			name = "traceI"
+		case "string":
+			name = "traceS"
+		case "bool":
+			name = "traceB"
+		default:
+			return e
+		}
+	}
 	g.probeCtr++
-	g.curRefs["prelude:trace"] = true
+	g.curRefs["prelude:"+name] = true
 	g.label("effect probe")
-	return Call("trace", e.T, Str(fmt.Sprintf("t%d", g.probeCtr)), e)
+	return Call(name, e.T, Str(fmt.Sprintf("t%d", g.probeCtr)), e)
 }
 
 func (g *Gen) maybeProbe(e *Expr, num, den int) *Expr {
@@ -512,13 +531,15 @@ func (g *Gen) expr0(sc *scope, t *Type, depth int) *Expr {
 		add(1, func() *Expr { return g.genericCall(sc, t, depth) })
 	}
 	// inline if
-	add(2, func() *Expr {
-		g.label("if as a value")
-		c := g.expr(sc, TBool, depth-1)
-		a := g.maybeProbe(g.expr(sc, t, depth-1), 1, 2)
-		b := g.maybeProbe(g.expr(sc, t, depth-1), 1, 2)
-		return &Expr{K: "if", Args: []*Expr{c}, Then: Blk(a), Else: Blk(b), T: t}
-	})
+	if !g.P.NoInlineIf {
+		add(2, func() *Expr {
+			g.label("if as a value")
+			c := g.expr(sc, TBool, depth-1)
+			a := g.maybeProbe(g.expr(sc, t, depth-1), 1, 2)
+			b := g.maybeProbe(g.expr(sc, t, depth-1), 1, 2)
+			return &Expr{K: "if", Args: []*Expr{c}, Then: Blk(a), Else: Blk(b), T: t}
+		})
+	}
 	// pipe
 	add(2, func() *Expr { return g.pipeExpr(sc, t, depth) })
 	switch t.K {
@@ -734,6 +755,9 @@ func (g *Gen) printable0(t *Type, seen map[string]bool) bool {
 	if !t.FirstOrder() {
 		return false
 	}
+	if t.K == "union" && g.P.Tinyfo {
+		return false // known finding D13: tinyfo emits no String() for unions
+	}
 	if t.K == "rec" || t.K == "union" {
 		if seen[t.Name] {
 			return true
@@ -770,7 +794,7 @@ func (g *Gen) sliceLib(sc *scope, t *Type, depth int) *Expr {
 	et := t.Elem()
 	k := g.intn(10, "sliceLib")
 	switch {
-	case k == 0 && g.P.Lambdas:
+	case k == 0:
 		// Map from another element type
 		st := []*Type{TInt, TString, et}[g.intn(3, "mapSrc")]
 		g.label("slice.Map with a lambda")
@@ -787,12 +811,18 @@ func (g *Gen) sliceLib(sc *scope, t *Type, depth int) *Expr {
 		g.fieldFnOK++
 		fv := g.funcValue(sc, TFunc([]*Type{st}, et), depth-1)
 		g.fieldFnOK--
+		if fv == nil {
+			return g.literal(sc, t, depth)
+		}
 		return Call("slice.Map", t, fv, g.expr(sc, TSlice(st), depth-1))
-	case k == 1 && g.P.Lambdas:
+	case k == 1:
 		g.label("slice.Filter with a lambda")
 		g.fieldFnOK++
 		fv := g.funcValue(sc, TFunc([]*Type{et}, TBool), depth-1)
 		g.fieldFnOK--
+		if fv == nil {
+			return g.literal(sc, t, depth)
+		}
 		return Call("slice.Filter", t, fv, g.expr(sc, t, depth-1))
 	case k == 2:
 		return Call("slice.PushLast", t, g.expr(sc, et, depth-1), g.expr(sc, t, depth-1))
@@ -861,14 +891,19 @@ func (g *Gen) pipeExpr(sc *scope, t *Type, depth int) *Expr {
 	if !xt.FirstOrder() {
 		xt = TInt
 	}
+	f := g.funcValueOpt(sc, TFunc([]*Type{xt}, t), depth-1, true)
+	if f == nil {
+		// no function value of that type can be built in this profile
+		return g.literal(sc, t, depth-1)
+	}
 	x := g.expr(sc, xt, depth-1)
 	g.label("pipe")
-	f := g.funcValueOpt(sc, TFunc([]*Type{xt}, t), depth-1, true)
 	e := &Expr{K: "pipe", Args: []*Expr{x, f}, T: t}
 	if g.chance(1, 3, "pipeChain") && depth > 1 {
-		f2 := g.funcValueOpt(sc, TFunc([]*Type{t}, t), depth-1, true)
-		g.label("pipe chain")
-		e = &Expr{K: "pipe", Args: []*Expr{e, f2}, T: t}
+		if f2 := g.funcValueOpt(sc, TFunc([]*Type{t}, t), depth-1, true); f2 != nil {
+			g.label("pipe chain")
+			e = &Expr{K: "pipe", Args: []*Expr{e, f2}, T: t}
+		}
 	}
 	return e
 }
@@ -916,7 +951,7 @@ func (g *Gen) funcValueOpt(sc *scope, ft *Type, depth int, pipeStage bool) *Expr
 	if len(params) == 1 {
 		p := params[0]
 		switch {
-		case p.K == "int" && ret.K == "string":
+		case p.K == "int" && ret.K == "string" && !g.P.Tinyfo:
 			add(2, func() *Expr {
 				g.label("partial application of a library function")
 				return Call("frt.Sprintf1", ft, Str([]string{"%d", "#%d"}[g.intn(2, "paFmt")]))
@@ -979,7 +1014,7 @@ func (g *Gen) funcValueOpt(sc *scope, ft *Type, depth int, pipeStage bool) *Expr
 		}
 		// _.Field: only as the function argument of a slice-package higher-order
 		// function (the documented use; elsewhere its type is resolved too late)
-		if p.K == "rec" && g.fieldFnOK > 0 {
+		if p.K == "rec" && g.fieldFnOK > 0 && !g.P.NoFieldFn {
 			r := g.rec(p.Name)
 			for _, f := range r.Fields {
 				if r.FieldType(p, f.Name).Equal(ret) {
@@ -1001,8 +1036,8 @@ func (g *Gen) funcValueOpt(sc *scope, ft *Type, depth int, pipeStage bool) *Expr
 		add(w, func() *Expr { return g.lambda(sc, params, ret, depth, ret.K == "unit") })
 	}
 	if len(ps) == 0 {
-		// no lambdas in this profile and nothing else fits: a local helper cannot be made here
-		panic("funcValue: no production for " + ft.String())
+		// no lambdas in this profile and nothing else fits
+		return nil
 	}
 	total := 0
 	for _, p := range ps {
@@ -1158,3 +1193,52 @@ func (g *Gen) unitExpr(sc *scope, depth int) *Expr {
 		return &Expr{K: "pipe", Args: []*Expr{g.expr(sc, TString, depth), Var("frt.Println", TFunc([]*Type{TString}, TUnit))}, T: TUnit}
 	}
 }
+
+// Tiny is the early-Folang subset tinyfo accepts (property C17).
+var Tiny = Profile{Name: "tinyfo", Probes: true, Tinyfo: true, NoInlineIf: true, NoFieldFn: true, InlineRhsOnly: true,
+	MaxUnits: 6, MaxDepth: 3, AnnotateAll: true}
+
+// TinyPkgInfo declares, in tinyfo's package_info dialect, every library
+// function the tinyfo profile may use (tinyfo cannot read today's pkg_all.foi).
+const TinyPkgInfo = `package_info frt =
+  let Println: string->()
+  let Sprintf1<T>: string->T->string
+  let Sprintf2<T, U>: string->T->U->string
+  let Printf1<T>: string->T->()
+  let Fst<T, U>: T*U->T
+  let Snd<T, U>: T*U->U
+
+package_info slice =
+  let Length<T>: []T->int
+  let Len<T>: []T->int
+  let IsEmpty<T>: []T->bool
+  let IsNotEmpty<T>: []T->bool
+  let Head<T>: []T->T
+  let Last<T>: []T->T
+  let Item<T>: int->[]T->T
+  let Take<T>: int->[]T->[]T
+  let Skip<T>: int->[]T->[]T
+  let Tail<T>: []T->[]T
+  let PopLast<T>: []T->[]T
+  let Map<T, U>: (T->U)->[]T->[]U
+  let Filter<T>: (T->bool)->[]T->[]T
+  let PushLast<T>: T->[]T->[]T
+  let PushHead<T>: T->[]T->[]T
+  let Append<T>: []T->[]T->[]T
+  let Sort<T>: []T->[]T
+  let Distinct<T>: []T->[]T
+  let Zip<T, U>: []T->[]U->[]T*U
+
+package_info strings =
+  let Concat: string->[]string->string
+  let Length: string->int
+  let AppendTail: string->string->string
+  let AppendHead: string->string->string
+  let TrimSuffix: string->string->string
+  let EncloseWith: string->string->string->string
+  let HasPrefix: string->string->bool
+  let HasSuffix: string->string->bool
+  let Split: string->string->[]string
+  let IsEmpty: string->bool
+  let IsNotEmpty: string->bool
+`
